@@ -357,7 +357,7 @@ mod verif_c05r {
 
     /// Tall, narrow rounded rectangles: corner ellipses that are much taller than wide have rows without
     /// any pixel; the row returned for such a y must still be exactly the set contains() accepts.
-    //@harness prop=C05 kind=bounded tier=quick class=P bound="rounded rectangle w <= 3, h <= 15 at (0,0), equal corner radii rx <= 1, ry <= 7 that fit; any row, any probe column within +-6" timeout=900 kani="--no-assertion-reach-checks" fns=src/primitives/rounded_rectangle/points.rs::Scanlines::next;src/primitives/rounded_rectangle/mod.rs::RoundedRectangleContains::new;src/primitives/rounded_rectangle/mod.rs::RoundedRectangleContains::contains
+    //@harness prop=C05,C06 kind=bounded tier=quick class=P bound="rounded rectangle w <= 3, h <= 15 at (0,0), equal corner radii rx <= 1, ry <= 7 that fit; any row, any probe column within +-6" timeout=900 kani="--no-assertion-reach-checks" fns=src/primitives/rounded_rectangle/points.rs::Scanlines::next;src/primitives/rounded_rectangle/mod.rs::RoundedRectangleContains::new;src/primitives/rounded_rectangle/mod.rs::RoundedRectangleContains::contains
     #[kani::proof]
     #[kani::unwind(6)]
     #[kani::stub(crate::primitives::ellipse::EllipseContains::contains, crate::primitives::ellipse::verif_ell::contains_by_contract)]
@@ -374,7 +374,7 @@ mod verif_c05r {
     /// Four *different* corner radii (each corner its own width and height): the row of the real scanline
     /// iterator is still exactly the set contains() accepts -- decides that both use the same corner for the
     /// same quadrant rows (left/right, top/bottom mix-ups need unequal radii to show).
-    //@harness prop=C05 kind=bounded tier=quick class=P bound="rounded rectangle w <= 4, h <= 7 at (0,0), four independent corner radii rx <= 2, ry <= 3 that fit; any row, probe column within +-6" timeout=900 kani="--no-assertion-reach-checks" fns=src/primitives/rounded_rectangle/points.rs::Scanlines::next;src/primitives/rounded_rectangle/mod.rs::RoundedRectangleContains::new;src/primitives/rounded_rectangle/mod.rs::RoundedRectangleContains::contains
+    //@harness prop=C05,C06 kind=bounded tier=quick class=P bound="rounded rectangle w <= 4, h <= 7 at (0,0), four independent corner radii rx <= 2, ry <= 3 that fit; any row, probe column within +-6" timeout=900 kani="--no-assertion-reach-checks" fns=src/primitives/rounded_rectangle/points.rs::Scanlines::next;src/primitives/rounded_rectangle/mod.rs::RoundedRectangleContains::new;src/primitives/rounded_rectangle/mod.rs::RoundedRectangleContains::contains
     #[kani::proof]
     #[kani::unwind(7)]
     #[kani::stub(crate::primitives::ellipse::EllipseContains::contains, crate::primitives::ellipse::verif_ell::contains_by_contract)]
